@@ -37,6 +37,18 @@ func (t *Trace) add(v val.V, raw types.MalType) {
 	t.mu.Unlock()
 }
 
+// Each visits every traced value with the snapshot taken when it was traced and the
+// reference that was passed; stop by returning false.
+func (t *Trace) Each(f func(i int, snapshot val.V, raw types.MalType) bool) {
+	t.mu.Lock()
+	defer t.mu.Unlock()
+	for i := range t.Log {
+		if !f(i, t.Log[i], t.Raw[i]) {
+			return
+		}
+	}
+}
+
 func (t *Trace) Snapshot() []val.V {
 	t.mu.Lock()
 	defer t.mu.Unlock()
